@@ -55,6 +55,8 @@ def search(ctx, n_theta, n_pts):
     for fam in FAMS:
         for it in range(n_theta):
             th = implbiv.sample_theta(rng, fam, edge=(it < 2))
+            if fam == 'gumbel' and it == 2:
+                th = 1.0                      # the independence member of the family (theta = 1 exactly)
             try:
                 c = implbiv.make(fam, th)
                 u = rng.uniform(1e-3, 1 - 1e-3, n_pts)
